@@ -96,11 +96,139 @@ def run_c36():
     rep.finish()
 
 
+def run_vec(prop):
+    t = vlib.tier()
+    rep = vlib.Report(prop)
+    wd = vlib.workdir(prop)
+    vlib.build_harness()
+    trace = os.path.join(wd, "vec.ndjson")
+    n = int(os.environ.get("VERIF_N", {"quick": 700, "thorough": 15000}[t]))
+    vlib.ilv(["drive-vecindex", "--out", trace, "--n", n, "--seed", vlib.seed(), "--root", os.path.join(wd, "ix")], timeout=7200)
+    try:
+        res = vlib.tlc_trace("VecIndexTrace", trace, shards=12, timeout=7200, unit_start='"ev":"new"')
+    except vlib.ToolError as e:
+        vlib.tool_error(str(e))
+    rep.add_tlc(res)
+    cases = {}
+    with open(trace) as f:
+        for line in f:
+            r = json.loads(line)
+            cases.setdefault(r["case"], []).append(r)
+    judged, nontriv, rejected = 0, set(), {}
+    for ln in res.lines:
+        if ln[0] == "VERDICT" and ln[1] == prop:
+            judged += 1
+            _, _, cid, pos, ok, info = ln
+            if info.get("live", 0) > 0:
+                nontriv.add((cid, pos))
+            if not ok and cid not in rejected:
+                calls = cases[cid]
+                preds = {"ev." + info.get("ev", "")}
+                seen_del, reins = set(), False
+                for c in calls:
+                    if c["ev"] == "delete":
+                        seen_del.add(c["id"])
+                    if c["ev"] == "insert" and c["id"] in seen_del:
+                        reins = True
+                if seen_del:
+                    preds.add("hist.has_delete")
+                if reins:
+                    preds.add("hist.reinsert_after_delete")
+                preds.add("metric." + calls[0]["obs"]["metric"])
+                preds.add("cfg.m_%d" % calls[0]["obs"]["m"])
+                if info.get("got", 0) < min(info.get("k", 0), info.get("live", 0)) and info.get("ids") and info.get("dist"):
+                    preds.add("search.too_few_results")
+                for k in ("ids", "order", "dist", "full"):
+                    if info.get(k) is False:
+                        preds.add("search.bad_" + k)
+                rejected[cid] = ({"calls": calls}, info, preds)
+    for cid, (c, info, preds) in sorted(rejected.items()):
+        rep.reject(c, info, preds)
+    if judged == 0:
+        vlib.tool_error("nothing judged")
+    rep.cov.update({
+        "evaluations": judged,
+        "histories": len(cases),
+        "distinct_nontrivial": len(nontriv),
+        "rule": "seeded histories of 4-22 calls (insert / update of an existing id, delete, rebuild, save+load, search with k 1-6 and "
+                "ef in {default, k, 20, 100}) on a real HnswIndex, all four metrics, dims 1-5, integer coordinates -4..4 (5% zero "
+                "vectors), ids 1..10; a judged call is non-trivial if the abstract index is non-empty; distinct = (history, position)",
+        "traces_validated_against_impl": len(cases),
+        "samples": [cases[k][:4] for k in list(cases)[:2]],
+    })
+    rep.assumptions += ["numeric agreement of distances is checked to about 1e-2 through integer inequalities (TLC has no reals)",
+                        "dot-product distances are only checked for ordering"]
+    rep.finish()
+
+
+def run_c26():
+    t = vlib.tier()
+    rep = vlib.Report("C26")
+    wd = vlib.workdir("C26")
+    vlib.build_harness()
+    trace = os.path.join(wd, "ops.ndjson")
+    n = int(os.environ.get("VERIF_N", {"quick": 600, "thorough": 12000}[t]))
+    vlib.ilv(["drive-vecops", "--out", trace, "--n", n, "--seed", vlib.seed()], timeout=7200)
+    try:
+        res = vlib.tlc_trace("LawsTrace", trace, shards=12, timeout=7200, unit_start='"ev":"case"')
+    except vlib.ToolError as e:
+        vlib.tool_error(str(e))
+    rep.add_tlc(res)
+    recs = {}
+    with open(trace) as f:
+        for i, line in enumerate(f):
+            r = json.loads(line)
+            recs.setdefault(r["case"], []).append(r)
+    judged, nontriv, rejected = 0, set(), {}
+    kinds = {}
+    for ln in res.lines:
+        if ln[0] == "VERDICT":
+            judged += 1
+            _, _, cid, pos, ok, info = ln
+            kinds[info["ev"]] = kinds.get(info["ev"], 0) + 1
+            if info["ev"] != "bucket" or info.get("seen"):
+                nontriv.add((cid, pos))
+            if not ok:
+                key = (cid, info["ev"])
+                if key not in rejected:
+                    preds = {"ev." + info["ev"]}
+                    if info["ev"] == "bucket" and info.get("thr"):
+                        preds.add("lsh.concurrent")
+                    if info["ev"] == "dist":
+                        preds.add("dist." + info["f"])
+                    rejected[key] = ({"case": cid, "records": [r for r in recs[cid] if r["ev"] in (info["ev"], "cache")][:40]},
+                                     info, preds)
+    for key, (c, info, preds) in sorted(rejected.items()):
+        rep.reject(c, info, preds)
+    for k in ("bucket", "probes", "dist", "quant"):
+        if not kinds.get(k):
+            vlib.tool_error("no %s record was judged (vacuous)" % k)
+    rep.cov.update({
+        "evaluations": judged,
+        "distinct_nontrivial": len(nontriv),
+        "by_kind": kinds,
+        "rule": "per case: 6-20 sequential bucket calls over a pool of 4 vectors x 3 tables x {1,4,8,12} hyperplanes interleaved with "
+                "cache clear / resize (0,1,2,64) / prewarm, every third case also 3 concurrent callers plus a thread clearing and "
+                "resizing the cache; 3 probe sequences; 4 vector pairs (integer coordinates -4..4 or -1000..1000, zero vectors, equal "
+                "pairs) through euclidean/cosine/manhattan; symmetric and linear int8 quantisation; a bucket call is non-trivial when its "
+                "key was seen before (the purity claim applies), every other judged record is non-trivial",
+        "traces_validated_against_impl": len(recs),
+        "samples": [recs[k][:3] for k in list(recs)[:2]],
+    })
+    rep.assumptions += ["distance laws are judged on sign/zero/range classes and bit-pattern equality; quantisation on integer-valued "
+                        "inputs through integer inequalities (TLC has no reals)"]
+    rep.finish()
+
+
 def run(prop, replay=None):
+    if prop == "C26":
+        return run_c26()
     if prop == "C31":
         run_c31()
-    else:
+    elif prop == "C36":
         run_c36()
+    else:
+        run_vec(prop)
 
 
 if __name__ == "__main__":
